@@ -324,7 +324,7 @@ fn generate(seed: u64, n: usize, _tier: &str, out: &mut dyn Write) {
     let mutate = |rng: &mut SplitMix64, r: &mut Req, class: u64, cols: usize| {
         let unknown = n_nodes + 3 + rng.below(4) as u32;
         let an_op = ops[rng.below(4) as usize];
-        if r.ins.is_empty() && class != 0 && class < 16 {
+        if r.ins.is_empty() && class != 0 && class < 15 {
             return;
         }
         let j = rng.below(r.ins.len().max(1) as u64) as usize;
@@ -354,11 +354,17 @@ fn generate(seed: u64, n: usize, _tier: &str, out: &mut dyn Write) {
             19 => { r.partial = true; if !r.ins.is_empty() { r.ins.remove(0); } }
             20 if r.ins.len() >= 2 => { let f = r.ins[0].clone(); let l = r.ins.len() - 1; r.ins[l] = f; }
             21 if r.outs.len() >= 2 => { let f = r.outs[0]; let l = r.outs.len() - 1; r.outs[l] = f; }
+            // ---- requested outputs drawn from declared graph inputs, supplied or not ----
+            22 => { let v = [x, y, k][rng.below(3) as usize]; r.ins.retain(|i| i.id != v); if !r.outs.contains(&v) { r.outs.push(v); } }
+            23 => { r.ins.clear(); r.outs = if rng.chance(1, 2) { vec![x] } else { vec![k, y] }; }                  // run([], [a])
+            24 => { r.ins.retain(|i| i.id == x); r.outs = if rng.chance(1, 2) { vec![y] } else { vec![x, y] }; }    // run([a],[b]) / run([a],[a,b])
+            25 => { r.outs = vec![x, k, y]; }                                                                      // only supplied graph inputs
+            26 => { r.ins.retain(|i| i.id != k); r.outs = vec![d, k]; }                                             // intermediate/final + unsupplied input
             _ => {}
         }
     };
     // systematic: every class cold and warm
-    for class in 0..22u64 {
+    for class in 0..27u64 {
         for _ in 0..2 {
             let cols = 1 + rng.below(4) as usize;
             let b0 = base(&mut rng, cols);
@@ -377,7 +383,7 @@ fn generate(seed: u64, n: usize, _tier: &str, out: &mut dyn Write) {
         for _ in 0..2 + rng.below(4) {
             let mut r = base(&mut rng, cols);
             for _ in 0..rng.below(3) {
-                let cl = rng.below(22);
+                let cl = rng.below(27);
                 mutate(&mut rng, &mut r, cl, cols);
             }
             reqs.push(r);
